@@ -70,6 +70,54 @@ def _query_params(ctx, fn):
     return idx[-2], idx[-1]
 
 
+def _decide_bool_fn(fn, ref, res, role_key):
+    """evaluate a boolean helper fn(value, start, end) built from if/else and comparisons over value.start/value.end/start/end on every order type"""
+    names = [nm for nm, _ in fn.params]
+    if len(names) != 3:
+        res.fail(role_key + "/helper-sig", fn, "unexpected signature")
+        return (False, 0)
+    V, S, E = names
+    rl = {"%s.start" % V: "vs", "%s.end" % V: "ve", S: "s", E: "e"}
+
+    def ev(n, v):
+        n = strip(n)
+        if n.k == "block":
+            st = n["stmts"]
+            if len(st) != 1:
+                raise NotComparisonOnly("block with %d statements" % len(st))
+            x = st[0]
+            if x.k == "expr_stmt":
+                return ev(x["e"], v)
+            raise NotComparisonOnly("statement " + up(x)[:40])
+        if n.k == "if":
+            return ev(n["then"], v) if ev(n["cond"], v) else ev(n["else"], v)
+        if n.k == "lit" and n["t"] == "bool":
+            return str(n["v"]).lower() == "true"
+        if n.k == "return":
+            return ev(n["e"], v)
+        p = Pred(n)
+        if p.atoms or any(t not in rl for t in p.terms):
+            raise NotComparisonOnly("terms %s" % sorted(set(p.terms) - set(rl)))
+        return p.eval({t: v[rl[t]] for t in p.terms}, {})
+    rows = 0
+    try:
+        for ranks in weak_orders(4):
+            v = dict(zip(["vs", "ve", "s", "e"], ranks))
+            if not (v["vs"] <= v["ve"] and v["s"] <= v["e"]):
+                continue
+            rows += 1
+            got, want = ev(fn.body, v), ref(v)
+            if got != want:
+                res.fail(role_key, fn, "%s differs from the reference (empty range: nothing; value with bases: shares a base with [s,e); value without bases: lies within [s,e]) "
+                                       "when %s: code=%s, required=%s" % (fn.name, order_str(v), got, want))
+                return (False, rows)
+    except NotComparisonOnly as e:
+        res.fail(role_key + "/helper-idiom", fn, "helper is not a comparison-only if/else: %s" % e)
+        return (False, rows)
+    res.ok(fn, "%s decided on %d order types of (value.start <= value.end, start <= end): nothing for an empty range; a value with bases iff it shares a base; a value without bases iff within the range" % (fn.name, rows))
+    return (True, rows)
+
+
 def ob_wig_keep(ctx, res):
     """C03-P1..3 + clip (R-BOUND): the three section-type arms of get_block_values"""
     fn = ctx.ast.fn(RW, "get_block_values")
@@ -83,25 +131,49 @@ def ob_wig_keep(ctx, res):
     role = _role_value_query(fn, *qp)
     rows_total = 0
     texts = []
+    # reference (C03 + C01): an empty range has no answer; a value with bases is kept iff it shares a base with [s,e); a value
+    # without bases (accepted by the writer, must come back from a full-span read even at position 0 / the chromosome end) iff it lies within [s,e]
+    def ref(v):
+        if not v["s"] < v["e"]:
+            return False
+        if v["vs"] < v["ve"]:
+            return max(v["vs"], v["s"]) < min(v["ve"], v["e"])
+        return v["s"] <= v["vs"] and v["ve"] <= v["e"]
+    helper = ctx.ast.fn(RW, "value_in_range", required=False)
+    helper_ok = None
     for n, push in ifs:
-        try:
-            p = Pred(n["cond"])
-        except NotComparisonOnly as e:
-            res.fail("wigKeep/not-cmp", n, str(e))
-            continue
-        rows, cex, err = check_table(
-            p, role, ["vs", "ve", "s", "e"],
-            side=lambda v: v["vs"] < v["ve"] and v["s"] < v["e"],
-            ref=lambda v: max(v["vs"], v["s"]) < min(v["ve"], v["e"]),
-            relation="equiv")
-        rows_total += rows
-        if err:
-            res.fail("wigKeep/idiom", n, err)
-            continue
-        if cex:
-            res.fail("wigKeep/table", n, "keep-condition `%s` differs from `value shares a base with [s,e)` on the order type %s: code=%s, required=%s" % (
-                up(n["cond"]), cex[0], cex[1], cex[2]))
-            continue
+        cond = strip(n["cond"])
+        if cond.k == "call" and up(cond["func"]) == "value_in_range":
+            # the keep-condition is the shared helper: arguments must be the decoded value and the query range, the helper is decided once
+            a = [up(strip(x)).lstrip("&") for x in cond["args"]]
+            pushed = up(strip(push["args"][0])) if push.get("args") else ""
+            if helper is None or len(a) != 3 or a[0] != pushed or role(a[1], cond["args"][1]) != "s" or role(a[2], cond["args"][2]) != "e":
+                res.fail("wigKeep/helper-args", n, "value_in_range must be asked about the value being pushed and the query range; got %s" % a)
+                continue
+            if helper_ok is None:
+                helper_ok = _decide_bool_fn(helper, ref, res, "wigKeep/table")
+                rows_total += helper_ok[1]
+            if not helper_ok[0]:
+                continue
+        else:
+            try:
+                p = Pred(n["cond"])
+            except NotComparisonOnly as e:
+                res.fail("wigKeep/not-cmp", n, str(e))
+                continue
+            rows, cex, err = check_table(
+                p, role, ["vs", "ve", "s", "e"],
+                side=lambda v: v["vs"] <= v["ve"] and v["s"] <= v["e"],
+                ref=ref,
+                relation="equiv")
+            rows_total += rows
+            if err:
+                res.fail("wigKeep/idiom", n, err)
+                continue
+            if cex:
+                res.fail("wigKeep/table", n, "keep-condition `%s` differs from the reference (empty range: nothing; value with bases: shares a base with [s,e); value without bases: lies "
+                                             "within [s,e]) on the order type %s: code=%s, required=%s" % (up(n["cond"]), cex[0], cex[1], cex[2]))
+                continue
         # clip: value.start = max(vs, s); value.end = min(ve, e) before the push; pushed value is that local
         assigns = [a for a in walk_no_nested_fn(n["then"]) if a.k == "assign"]
         got = {}
@@ -122,7 +194,7 @@ def ob_wig_keep(ctx, res):
             bad = None
             for ranks in weak_orders(4):
                 v = dict(zip(["vs", "ve", "s", "e"], ranks))
-                if not (v["vs"] < v["ve"] and v["s"] < v["e"]):
+                if not (v["vs"] <= v["ve"] and v["s"] <= v["e"] and ref(v)):
                     continue
                 env = {}
                 for t, tn in fake.terms.items():
@@ -142,7 +214,7 @@ def ob_wig_keep(ctx, res):
                 okc = False
         if okc:
             # start clip must not use the already clipped end and vice versa (order independence is implied by roles)
-            res.ok(n, "keep iff value shares a base with the range (exhaustive over %d order types); clipped to [max(vs,s), min(ve,e)) before push" % rows)
+            res.ok(n, "kept per the reference; every kept value clipped to [max(vs,s), min(ve,e)) before the push (%d order types in all)" % rows_total)
             texts.append(up(n))
     if len(texts) == 3 and len(set(texts)) != 1:
         res.fail("wigKeep/siblings", fn, "filter+clip statements differ between the section-type arms")
